@@ -343,7 +343,7 @@ func runC18(c *Ctx) {
 		r.Unresolved("add/atomic-with-shutdown", pkg+".Queue.Add", "method not found")
 	} else {
 		key := pkg + ".Queue.Add"
-		recvObj := info.Defs[fd.Recv.List[0].Names[0]]
+		recvObj := info.Defs[recvIdentOf(fd)]
 		recvPath := fmt.Sprintf("%s@%d", recvObj.Name(), recvObj.Pos())
 		n := 0
 		bad := ""
